@@ -11,7 +11,7 @@ T4 == Addr("198.51.100.9", <<198, 51, 100, 9>>)
 DocX(id, label, runs, rtts, enrich, skip, dns, names, real, bound, reprobe, hit) ==
     [id |-> id, label |-> label, kind |-> "doc",
      extra |-> [doc |-> [runs |-> runs, rtts |-> rtts, enrich |-> enrich, skip_private |-> skip, dns |-> dns, names |-> names,
-                         realclock |-> real, bound_us |-> bound, reprobe |-> reprobe, hit |-> hit, rtt_div |-> 1, dport |-> 33434]]]
+                         realclock |-> real, bound_us |-> bound, reprobe |-> reprobe, hit |-> hit, rtt_div |-> 1, dport |-> 33434, first_ttl |-> 1]]]
 Doc(id, label, runs, rtts, enrich, skip, dns, names) == DocX(id, label, runs, rtts, enrich, skip, dns, names, FALSE, 0, FALSE, <<>>)
 NoDNS == [x \in {} |-> ""]
 NoNames == [x \in {} |-> <<>>]
@@ -41,6 +41,17 @@ C16All(u) ==
 
 \* C17: every private block boundary and its public neighbours, mapped forms, empty hops; with/without enrichment
 AddrSeq == SetToSeq(AllAddrs)
+C17Doc(k, en, sk, sh) ==
+    Doc("C17/" \o (IF en THEN "enrich" ELSE "plain") \o "/" \o (IF sk THEN "skip" ELSE "keep") \o "/" \o ToString(k) \o "/" \o ToString(sh),
+          "redact/" \o AddrSeq[k].s \o "/len" \o ToString(Len(AddrSeq[k].b)) \o (IF en THEN "/enrich" ELSE "") \o (IF sk THEN "" ELSE "/keep") \o "/shape" \o ToString(sh),
+          IF sh = 1
+          THEN <<RunOf(<<Hop(AddrSeq[k], 3, FALSE), Hop(AddrSeq[((k + 4) % Len(AddrSeq)) + 1], 5, FALSE), Hop(NoAddr, 0, FALSE), Hop(T4, 9, TRUE)>>),
+                 RunOf(<<Hop(AddrSeq[((k + 9) % Len(AddrSeq)) + 1], 2, TRUE)>>)>>
+          ELSE <<RunOf(<<Hop(NoAddr, 0, FALSE), Hop(AddrSeq[k], 3, FALSE), Hop(NoAddr, 0, FALSE), Hop(AddrSeq[((k + 4) % Len(AddrSeq)) + 1], 5, FALSE), Hop(T4, 9, TRUE)>>),
+                 RunOf(<<Hop(T4, 1, FALSE), Hop(NoAddr, 0, FALSE), Hop(AddrSeq[((k + 9) % Len(AddrSeq)) + 1], 2, TRUE)>>)>>,
+          <<4, 0>>, en, sk,
+          [a \in {x.s : x \in AllAddrs} \ {""} |-> "host-" \o a], [a \in {x.s : x \in AllAddrs} \ {""} |-> <<"host-" \o a>>])
+C17First == { C17Doc(k, en, TRUE, sh) : k \in {1, 5, 9, 13}, en \in BOOLEAN, sh \in {1, 2} }
 C17All(u) ==
     { Doc("C17/" \o (IF en THEN "enrich" ELSE "plain") \o "/" \o (IF sk THEN "skip" ELSE "keep") \o "/" \o ToString(k) \o "/" \o ToString(sh),
           "redact/" \o AddrSeq[k].s \o "/len" \o ToString(Len(AddrSeq[k].b)) \o (IF en THEN "/enrich" ELSE "") \o (IF sk THEN "" ELSE "/keep") \o "/shape" \o ToString(sh),
@@ -53,6 +64,8 @@ C17All(u) ==
           <<4, 0>>, en, sk,
           [a \in {x.s : x \in AllAddrs} \ {""} |-> "host-" \o a], [a \in {x.s : x \in AllAddrs} \ {""} |-> <<"host-" \o a>>])
         : k \in DOMAIN AddrSeq, en \in BOOLEAN, sk \in BOOLEAN, sh \in {1, 2} }
+    \* a library caller's run that starts at TTL 3: every hop keeps ITS TTL through redaction, the hop counts are positions
+    \cup { [d EXCEPT !.id = @ \o "/first3", !.label = @ \o "/first_ttl3", !.extra.doc.first_ttl = 3] : d \in C17First }
 
 \* C18(a): address multisets (duplicates, empty, mapped) x per-address resolver behaviour (names / empty list / error / slow)
 Behaviours == {"names", "two", "empty", "error", "slow", "dot"}
